@@ -267,6 +267,9 @@ def _integrate_over(expr: ast.AST, generators: Sequence[ast.comprehension]) -> a
                 _parse_sympy_expr(core.unparse(value).strip()) for value in comprehension.iter.elts
             ]
             if isinstance(comprehension.iter, ast.Set):
+                if not all(value.is_number for value in values):
+                    # {n, 3} has one element or two, depending on n
+                    raise ValueError("Cannot tell the elements of a set of unknown values apart")
                 values = set(values)
 
             sym_expr = sum(sym_expr.subs(integrand, value) for value in values)
